@@ -87,8 +87,10 @@ class _JsonRecorder:
         return FJ.dumps(o, **kw)
 
 
-def _run_reader(chunks, record_json=True):
+def _run_reader(chunks, record_json=True, prepare=None):
     c = make_client(chunks)
+    if prepare is not None:
+        prepare(c)
     rec = _JsonRecorder()
     delivered = []
     saved_json = STDIO.json
@@ -187,6 +189,40 @@ def _encode(kinds, crlf):
             raise HarnessError(k)
         out += txt.encode("utf-8") + (b"\r\n" if crlf else b"\n")
     return out, exp_main, exp_notif
+
+
+import anyio as _anyio
+
+
+class _RefusingNotify:
+    """notification stream that nobody drains (full) or that was closed: the offer fails, delivery on the read stream must not"""
+
+    def __init__(self, mode):
+        self.mode, self.items = mode, []
+
+    def send_nowait(self, item):
+        if self.mode == 1:
+            raise _anyio.WouldBlock()
+        if self.mode == 2:
+            raise _anyio.BrokenResourceError()
+        # (ClosedResourceError would mean the client closed its OWN notification send stream, which it never does:
+        #  not part of the stub's contract - an earlier version included it and raised a false alarm)
+        self.items.append(item)
+
+    async def send(self, item):
+        self.send_nowait(item)
+
+
+def routing_notify_refused(kinds, mode):
+    data, exp_main, exp_notif = _encode(kinds, False)
+    def prep(client):
+        client._notify_send = _RefusingNotify(mode)
+
+    c, _ = _run_reader([data], record_json=False, prepare=prep)
+    main = [dump(m) for m in c._incoming_send.items]
+    if not same_json(main, exp_main):
+        return "main-stream-differs-when-notification-offer-fails"
+    return "ok"
 
 
 def routing(kinds, crlf, i, d):
